@@ -299,7 +299,7 @@ async def probe_crash_state(world, node, expect_before, expect_after, violate, c
         for st in states:
             for m in st["msgs"]:
                 allowed[m[1]] = max(allowed.get(m[1], 0), [x[1] for x in st["msgs"]].count(m[1]))
-        for t in set(gtoks):
+        for t in sorted(set(gtoks), key=lambda t: (t is None, t or 0)):
             # present although every acknowledged state has it expunged/moved away
             # (a duplicate of a message that legitimately exists - e.g. a kill between
             # pack's link() and unlink() - is not among the clauses of the statement)
@@ -319,7 +319,7 @@ async def probe_crash_state(world, node, expect_before, expect_after, violate, c
                     violate("acked_flags_lost", mailbox=name, uid=uid, tok=tok, got=sorted(fl), acknowledged=[sorted(o) for o in opts])
                     break
     # every mailbox the acknowledged model has must still be there
-    for name in set(expect_before) & set(expect_after):
+    for name in sorted(set(expect_before) & set(expect_after)):
         if name not in listed and not expect_before[name]["noselect"] and not expect_after[name]["noselect"]:
             violate("mailbox_lost_after_crash", mailbox=name, listed=sorted(listed))
     obs.close()
